@@ -2,6 +2,7 @@ import RsModel.Lemmas.Codec
 import RsModel.Lemmas.DeclMap
 import RsModel.Lemmas.ModeCold
 import RsModel.Lemmas.StrictIn
+import RsModel.Lemmas.StrictOrder
 import RsModel.Lemmas.ReplaceOrig
 /-!
 # C11 — produced source maps and chunk streams are well-formed
@@ -140,5 +141,37 @@ theorem c11_map_before_end (s : Src) (h : s.ModeHypC) (hn : s.ids.Nodup) (σ : S
   have hsub := keptFrom_sublist (chunkMs (s.stream ⟨true, true⟩ σ).1.evs) {}
   obtain ⟨t, ht⟩ := chunkMs_mem_ev _ m (hsub.subset hmem)
   exact Src.strictC s h hn σ hc t m ht ho
+
+
+/-- **segments of `map()` are in *strictly* increasing generated position, each on a character of `source()`** (columns = true):
+for every tree of the domain of C03 on cold caches whose attached maps (outside ReplaceSource nodes, which re-chunk what they
+wrap) are strictly sorted (`Src.StrictMaps`), the decoded segments of the SourceMap `get_map` returns — mapped and unmapped
+alike — stand at the positions of characters `k₁ < k₂ < …` of `source()`: strictly increasing, all before the end.
+Chain: the text-less stream delivers its chunks at increasing characters (`Src.incC`: OriginalSource tokens; the map-driven
+splitter forwards a sublist of a strictly sorted map and drops what lies at or beyond the end; ConcatSource shifts each child and
+closes a mapping only where the next child does not begin with a chunk; ReplaceSource delivers only non-empty chunks at their
+true positions; the combinator keeps the outer positions) ∘ the encoder writes a sublist (`keptFrom`) ∘ C12 (decode ∘ encode). -/
+theorem c11_map_strict (s : Src) (h : s.ModeHypC) (hs : s.StrictMaps) (hn : s.ids.Nodup) (σ : Store) (hc : Cold σ s.ids) (final : Bool)
+    (hsmall : ∀ m ∈ chunkMs (s.stream ⟨true, true⟩ σ).1.evs, m.small) (sm : SMap) (hm : (getMap s ⟨true, final⟩ σ).1 = some sm) :
+    (decode sm.mappings).Pairwise mlt
+    ∧ ∀ m ∈ decode sm.mappings, ∃ k, k < s.src.length ∧ adv startPos (s.src.take k) = ⟨m.gl, m.gc⟩ := by
+  have hm3 := Src.m3c s h hn σ σ hc hc
+  simp only [getMap] at hm
+  rw [mapOfEvs_mappings _ sm hm, decode_encode _ hsmall (linesOK_of_sorted _ 1 0 hm3.sorted)]
+  have hsub := keptFrom_sublist (chunkMs (s.stream ⟨true, true⟩ σ).1.evs) {}
+  have hinc : IncP s.src 0 s.src.length ((keptFrom {} (chunkMs (s.stream ⟨true, true⟩ σ).1.evs)).map fun m => (m.gl, m.gc)) :=
+    incP_sublist _ _ _ (hsub.map _) _ _ (Src.incC s h hs hn σ hc)
+  constructor
+  · have := incP_pairwise _ _ _ _ (Nat.le_refl _) hinc
+    rw [List.pairwise_map] at this
+    exact this
+  · intro m hmem
+    obtain ⟨k, _, hk, e⟩ := incP_lower _ _ _ _ (Nat.le_refl _) hinc (m.gl, m.gc) (List.mem_map.2 ⟨m, hmem, rfl⟩)
+    exact ⟨k, hk, e⟩
+
+/-- non-vacuity: an OriginalSource in front of a SourceMapSource with a strictly sorted two-segment map -/
+example : (Src.concat (.cons (.orig [97, 59, 10, 98] [102]) (.cons (.sms [120, 32, 121] [103] ⟨[65, 65, 65, 65, 44, 69, 65, 65, 69], [[115]], [], [], none, none, none⟩ none none false) .nil))).StrictMaps := by
+  simp only [Src.StrictMaps, SrcList.StrictMapsL]
+  exact ⟨trivial, by decide, trivial⟩
 
 end Rs
